@@ -21,6 +21,9 @@ import (
 )
 
 // conOp is one concurrent operation on the real manager + real transport world.
+// opCtx is the context of the operations of the current execution (one execution at a time per process).
+var opCtx = context.Background()
+
 type conOp struct {
 	name string
 	do   func(w *l2transport.RealWorld, chid datatransfer.ChannelID, reqNum int)
@@ -32,22 +35,22 @@ func extOfMsg(m datatransfer.Message) map[graphsync.ExtensionName]datamodel.Node
 
 var conOps = []conOp{
 	{"open-pull", func(w *l2transport.RealWorld, c datatransfer.ChannelID, r int) {
-		_, _ = w.Mgr.OpenPullDataChannel(context.Background(), doubles.PeerB, doubles.Voucher("T", "v"), doubles.Cid("root"), doubles.AllSelector())
+		_, _ = w.Mgr.OpenPullDataChannel(opCtx, doubles.PeerB, doubles.Voucher("T", "v"), doubles.Cid("root"), doubles.AllSelector())
 	}},
 	{"open-push", func(w *l2transport.RealWorld, c datatransfer.ChannelID, r int) {
-		_, _ = w.Mgr.OpenPushDataChannel(context.Background(), doubles.PeerB, doubles.Voucher("T", "v"), doubles.Cid("root"), doubles.AllSelector())
+		_, _ = w.Mgr.OpenPushDataChannel(opCtx, doubles.PeerB, doubles.Voucher("T", "v"), doubles.Cid("root"), doubles.AllSelector())
 	}},
 	{"close", func(w *l2transport.RealWorld, c datatransfer.ChannelID, r int) {
-		_ = w.Mgr.CloseDataTransferChannel(context.Background(), c)
+		_ = w.Mgr.CloseDataTransferChannel(opCtx, c)
 	}},
 	{"pause", func(w *l2transport.RealWorld, c datatransfer.ChannelID, r int) {
-		_ = w.Mgr.PauseDataTransferChannel(context.Background(), c)
+		_ = w.Mgr.PauseDataTransferChannel(opCtx, c)
 	}},
 	{"resume", func(w *l2transport.RealWorld, c datatransfer.ChannelID, r int) {
-		_ = w.Mgr.ResumeDataTransferChannel(context.Background(), c)
+		_ = w.Mgr.ResumeDataTransferChannel(opCtx, c)
 	}},
 	{"restart", func(w *l2transport.RealWorld, c datatransfer.ChannelID, r int) {
-		_ = w.Mgr.RestartDataTransferChannel(context.Background(), c)
+		_ = w.Mgr.RestartDataTransferChannel(opCtx, c)
 	}},
 	{"block-received", func(w *l2transport.RealWorld, c datatransfer.ChannelID, r int) {
 		acts := &doubles.Actions{}
@@ -63,7 +66,7 @@ var conOps = []conOp{
 		}
 	}},
 	{"peer-cancels", func(w *l2transport.RealWorld, c datatransfer.ChannelID, r int) {
-		w.Net.Receiver.ReceiveResponse(context.Background(), doubles.PeerB, doubles.Recode(message.CancelResponse(c.ID)).(datatransfer.Response))
+		w.Net.Receiver.ReceiveResponse(opCtx, doubles.PeerB, doubles.Recode(message.CancelResponse(c.ID)).(datatransfer.Response))
 	}},
 	{"request-completes", func(w *l2transport.RealWorld, c datatransfer.ChannelID, r int) { w.GS.Finish(r, nil) }},
 	{"subscribe-unsubscribe", func(w *l2transport.RealWorld, c datatransfer.ChannelID, r int) {
@@ -71,10 +74,10 @@ var conOps = []conOp{
 		u()
 	}},
 	{"query", func(w *l2transport.RealWorld, c datatransfer.ChannelID, r int) {
-		_, _ = w.Mgr.ChannelState(context.Background(), c)
-		_, _ = w.Mgr.InProgressChannels(context.Background())
+		_, _ = w.Mgr.ChannelState(opCtx, c)
+		_, _ = w.Mgr.InProgressChannels(opCtx)
 	}},
-	{"stop", func(w *l2transport.RealWorld, c datatransfer.ChannelID, r int) { _ = w.Mgr.Stop(context.Background()) }},
+	{"stop", func(w *l2transport.RealWorld, c datatransfer.ChannelID, r int) { _ = w.Mgr.Stop(opCtx) }},
 }
 
 func lockPoints(kind string, obj any) bool { return kind == "lock" || kind == "rlock" }
@@ -137,6 +140,11 @@ func c20Body(x *mc.Cell, ops []int, name, names string) mc.Body {
 				snaps = append(snaps, st)
 				mu.Unlock()
 			})
+			// the operations run with a context that is never cancelled before the verdict; the harness cancels it
+			// afterwards so that calls that were found stuck can be torn down and the cell goes on
+			ctx, cancelOps := context.WithCancel(context.Background())
+			opCtx = ctx
+			defer cancelOps()
 			s := sched.New(lockPoints)
 			sClosed := false
 			defer func() {
@@ -165,8 +173,24 @@ func c20Body(x *mc.Cell, ops []int, name, names string) mc.Body {
 				stopInvolved := strings.Contains(names, "stop")
 				n := mc.Unblock()
 				x.Violate("C20", fmt.Sprintf("interleaving;call-did-not-return;blocked-in=%s;stop-involved=%v", sites, stopInvolved), fmt.Sprintf("operations %v never returned (%d goroutines parked in library locks); schedule: %v\nblocked goroutines:\n%s", stuck, n, s.Trace, stacks), rep)
-				// the stuck calls may wait on something that cannot be released: end this worker
-				x.Die()
+				// tear down: cancel the operations' context, release what is parked; if something still cannot be
+				// released the worker ends here
+				cancelOps()
+				s.Close()
+				sClosed = true
+				mc.Wait()
+				_, _ = mc.Call(func() { _ = w.Mgr.Stop(context.Background()) })
+				w.MarkStopped()
+				for _, r := range w.GS.Reqs {
+					w.GS.Finish(r.Num, nil)
+				}
+				mc.Unblock()
+				mc.Wait()
+				closed = true
+				if mc.BlockedStacks(1) != "" {
+					x.Die()
+				}
+				return
 			}
 			s.Close()
 			sClosed = true
